@@ -35,6 +35,7 @@
 #include <unifex/let_value_with_stop_token.hpp>
 #include <unifex/variant_sender.hpp>
 #include <unifex/with_allocator.hpp>
+#include <unifex/repeat_effect_until.hpp>
 #include <unifex/when_all.hpp>
 #include <unifex/when_any.hpp>
 #include <unifex/with_query_value.hpp>
@@ -55,13 +56,13 @@ enum Kind {
   K_THEN, K_UPON_ERROR, K_UPON_DONE, K_LET_VALUE, K_LET_ERROR, K_LET_DONE,
   K_FINALLY, K_SEQUENCE, K_WHEN_ALL, K_STOP_WHEN, K_UNSTOPPABLE, K_VIA, K_ON,
   K_WITH_TAG, K_MAT_DEMAT, K_DONE_AS_OPT, K_LVWSS, K_ANY_SENDER, K_RETRY_WHEN, K_WHEN_ANY,
-  K_DEFER, K_LVW, K_LVWST, K_ALLOCATE, K_INTO_VARIANT, K_VARIANT, K_WITH_ALLOC,
+  K_DEFER, K_LVW, K_LVWST, K_ALLOCATE, K_INTO_VARIANT, K_VARIANT, K_WITH_ALLOC, K_REPEAT,
   K_COUNT
 };
 const char* kKindName[] = {"just", "just_error", "just_done", "leaf", "then", "upon_error", "upon_done", "let_value", "let_error",
                            "let_done", "finally", "sequence", "when_all", "stop_when", "unstoppable", "via", "on", "with_tag",
                            "mat_demat", "done_as_opt", "lvwss", "any_sender_of", "retry_when", "when_any",
-                           "defer", "let_value_with", "lvwst", "allocate", "into_variant", "variant_sender", "with_allocator"};
+                           "defer", "let_value_with", "lvwst", "allocate", "into_variant", "variant_sender", "with_allocator", "repeat_until"};
 
 struct Node {
   int id = 0;
@@ -560,6 +561,21 @@ void build_node(World* w, int id) {
         return VS{unifex::then(any_snd(a), IdVal{})};
       });
       break;
+    case K_REPEAT: {
+      // repeat the (void-valued) source until the predicate, asked after every value completion, says stop: 1 + k%3 rounds
+      int rounds = 1 + (int)(k % 3);
+      bool th = n.throws;
+      n.impl = make_node([a, k, nid, rounds, th] {
+        return unifex::then(unifex::repeat_effect_until(unifex::then(any_snd(a), Discard{}),
+                                                        [nid, rounds, th, count = 0]() mutable {
+                                                          note_call(nid, count);
+                                                          if (th && count == 0) { { usim::np_scope np; g_world->fault_injected = true; } throw injected_throw(-6000 - nid); }
+                                                          return ++count >= rounds;
+                                                        }),
+                            [k] { return Val{mix(k, 77)}; });
+      });
+      break;
+    }
     case K_WITH_ALLOC: n.impl = make_node([a, k] { return unifex::with_allocator(any_snd(a), sim_allocator<std::byte>{2 + (int)(k & 1)}); }); break;
     case K_WHEN_ANY:
       if (n.nchild == 2) n.impl = make_node([a, b] { return unifex::when_any(any_snd(a), any_snd(b)); });
@@ -628,8 +644,8 @@ int gen(World* w, int depth, int parent, int* budget) {
       static int more = -1;
       if (more < 0) more = (int)usim_param_int("more", 0);
       if (more && draw(3) == 0) {
-        static const int extra[] = {K_DEFER, K_LVW, K_LVWST, K_ALLOCATE, K_INTO_VARIANT, K_VARIANT, K_WITH_ALLOC};
-        kind = extra[draw(7)];
+        static const int extra[] = {K_DEFER, K_LVW, K_LVWST, K_ALLOCATE, K_INTO_VARIANT, K_VARIANT, K_WITH_ALLOC, K_REPEAT, K_REPEAT};
+        kind = extra[draw(9)];
       }
     }
     if (kind == K_LEAF && w->nleaves >= kMaxLeaves) kind = K_JUST;
@@ -662,6 +678,10 @@ int gen(World* w, int depth, int parent, int* budget) {
     case K_LET_VALUE: case K_LET_ERROR:
       n.throws = draw(10) == 0;
       kid(0); kid(1);
+      break;
+    case K_REPEAT:
+      w->nodes[id].throws = draw(10) == 0;
+      kid(0);
       break;
     case K_LET_DONE: case K_FINALLY: case K_SEQUENCE: case K_STOP_WHEN:
       kid(0); kid(1);
@@ -906,6 +926,27 @@ void check_tap(World* w, TapRec* t, bool) {
         }
         if (!ok) fail("not the result of the first child that completed with error/done");
       }
+      break;
+    }
+    case K_REPEAT: {
+      // source instance i runs; on value the predicate is asked: true => value, false => instance i+1 starts; error/done pass through
+      if (n0 == 0) { fail("completed although its source was never connected"); break; }
+      int rounds = 1 + (int)(n.k % 3);
+      bool decided = false;
+      for (int i = 0; i < n0 && !decided; ++i) {
+        TapRec* src = c0[i];
+        if (!src->completed) { fail("completed although a source round has not"); decided = true; break; }
+        if (i > 0) KIT_CHECK(src->start_seq > c0[i - 1]->sig_enter, "c05.sequencing", "repeat_effect_until: round %d started before round %d completed", i, i - 1);
+        if (src->channel != CH_VALUE) { same_as(src, "error/done of a round ends the repetition"); decided = true; break; }
+        if (n.throws && i == 0) { expect(CH_ERROR, -6000 - t->node, "the predicate threw: set_error"); decided = true; break; }
+        if (i + 1 >= rounds) { expect(CH_VALUE, mix(n.k, 77), "the predicate said stop after this round"); decided = true; break; }
+        if (i + 1 >= n0) {
+          if (conn_threw(w, t, n.child[0])) expect(CH_ERROR, conn_code(w, t, n.child[0]), "re-connecting the source threw: set_error");
+          else fail("the predicate asked for another round but the source was not restarted");
+          decided = true;
+        }
+      }
+      if (!decided) fail("more source rounds than the predicate allows");
       break;
     }
     case K_WHEN_ANY: {
